@@ -17,8 +17,13 @@ def oracle_c03(seed, tier):
     return oracle_tree.run(seed, tier, 12 if tier == "quick" else 150, "/imagery", ("images",), "oracle:C03 image metadata")
 
 
+def corr_products(seed, tier):
+    import corr_product
+    return corr_product.check(seed, tier)
+
+
 def checks(tier):
-    return [corr_layouts, corr_transformers, oracle_c03]
+    return [corr_layouts, corr_transformers, corr_products, oracle_c03]
 
 
 def replay(payload):
